@@ -1,10 +1,12 @@
 // c11: observations for "regexp-taking predicates follow Go regexp semantics; fast paths never change the answer".
-//   pat    : per pattern: syntax.Parse tree (as a Coq term), matcher chosen by textmatch.Compile (hook), compile
-//            errors of textmatch vs regexp, capture-group detection (hook) vs NumSubexp, and for a list of inputs the
-//            verdicts of textmatch.Match / MatchString / regexp.Match
-//   unicode: unicode.IsUpper / IsLower against the classes syntax.Parse builds for ^\p{Lu} / ^\p{Ll}, every rune
-//   engine : Text.Matches / File().Name.Matches / File().PkgPath.Matches through a loaded engine vs regexp on the
-//            node text / file name / package path
+//
+//	pat    : per pattern: syntax.Parse tree (as a Coq term), matcher chosen by textmatch.Compile (hook), compile
+//	         errors of textmatch vs regexp, capture-group detection (hook) vs NumSubexp, and for a list of inputs the
+//	         verdicts of textmatch.Match / MatchString / regexp.Match
+//	unicode: unicode.IsUpper / IsLower against the classes syntax.Parse builds for ^\p{Lu} / ^\p{Ll}, every rune
+//	engine : Text.Matches / File().Name.Matches / File().PkgPath.Matches through a loaded engine vs regexp on the
+//	         node text / file name / package path
+//
 // Output: one JSON object per line on stdout.
 package main
 
@@ -383,8 +385,8 @@ type engineObs struct {
 	Neg     bool   `json:"neg"`
 	Pat     []byte `json:"pat"`
 	Input   []byte `json:"input"`
-	Got     bool   `json:"got"`    // a report was produced
-	Want    bool   `json:"want"`   // regexp's verdict on the same text
+	Got     bool   `json:"got"`  // a report was produced
+	Want    bool   `json:"want"` // regexp's verdict on the same text
 	LoadErr string `json:"load_err,omitempty"`
 	Panic   string `json:"panic,omitempty"`
 }
@@ -552,6 +554,59 @@ func engineLevel(enc *json.Encoder, tmp string, rng *rand.Rand, npat int) {
 	}
 }
 
+// decodeObs: Go's own decoding (what regexp's input stepping sees: an invalid byte is U+FFFD and consumes one byte) and
+// string([]rune) encoding, to be compared with the Coq functions decode / encode
+type decodeObs struct {
+	K      string   `json:"k"`
+	Inputs [][]byte `json:"inputs"`
+	Runes  [][]int  `json:"runes"`
+	Encs   [][]int  `json:"encs"`   // rune lists
+	EncOut [][]byte `json:"encout"` // string([]rune)
+}
+
+func decodeCheck(rng *rand.Rand, n int) decodeObs {
+	o := decodeObs{K: "decode"}
+	alphabet := []byte{0x00, 'a', 0x7f, 0x80, 0x8f, 0x90, 0x9f, 0xa0, 0xbf, 0xc0, 0xc1, 0xc2, 0xdf, 0xe0, 0xe1, 0xec, 0xed, 0xee, 0xef, 0xf0, 0xf1, 0xf3, 0xf4, 0xf5, 0xff, 0xbd, 0xbe}
+	add := func(b []byte) {
+		o.Inputs = append(o.Inputs, b)
+		rs := []int{}
+		for _, r := range string(b) {
+			rs = append(rs, int(r))
+		}
+		o.Runes = append(o.Runes, rs)
+	}
+	for _, s := range baseInputs {
+		add([]byte(s))
+	}
+	for i := 0; i < n; i++ {
+		b := make([]byte, rng.Intn(7))
+		for j := range b {
+			if rng.Intn(5) == 0 {
+				b[j] = byte(rng.Intn(256))
+			} else {
+				b[j] = alphabet[rng.Intn(len(alphabet))]
+			}
+		}
+		add(b)
+	}
+	special := []rune{0, 0x7f, 0x80, 0x7ff, 0x800, 0xd7ff, 0xd800, 0xdfff, 0xe000, 0xfffd, 0xffff, 0x10000, 0x10ffff, 0x110000, -1}
+	for i := 0; i < n/4; i++ {
+		rs := make([]rune, rng.Intn(4))
+		ints := make([]int, len(rs))
+		for j := range rs {
+			if rng.Intn(2) == 0 {
+				rs[j] = special[rng.Intn(len(special))]
+			} else {
+				rs[j] = rune(rng.Intn(0x110000))
+			}
+			ints[j] = int(rs[j])
+		}
+		o.Encs = append(o.Encs, ints)
+		o.EncOut = append(o.EncOut, []byte(string(rs)))
+	}
+	return o
+}
+
 func main() {
 	seed := flag.Int64("seed", 1, "PRNG seed")
 	nrand := flag.Int("rand", 300, "random patterns")
@@ -563,6 +618,7 @@ func main() {
 	enc.SetEscapeHTML(false)
 
 	enc.Encode(unicodeCheck())
+	enc.Encode(decodeCheck(rng, 1500))
 	pats := systematicPatterns()
 	for i := 0; i < *nrand; i++ {
 		pats = append(pats, randomPattern(rng, 3))
